@@ -148,6 +148,9 @@ func init() {
 		"cat <<E\n$("+rep("(", 1100)+"a"+rep(")", 1100)+")\nE\n", "cat <<E\n$("+rep("{ ", 1100)+"a;"+rep(" }", 1100)+")\nE\n",
 		"cat <<E\n"+rep("$(", 400)+"a"+rep(")", 400)+"\nE\n", "cat <<\"$("+rep("(", 1100)+"a"+rep(")", 1100)+")\"\nx\n", rep("(", 1100)+"a"+rep(")", 1100), rep("{ ", 1100)+"a;"+rep(" }", 1100),
 		rep("if a; then ", 1100)+"b"+rep("; fi", 1100), rep("$(", 1100)+"a"+rep(")", 1100),
+		// "((" is the arithmetic command: nested subshells need blanks
+		rep("( ", 1100)+"a"+rep(" )", 1100), "cat <<E\n$( "+rep("( ", 1100)+"a"+rep(" )", 1100)+" )\nE\n", "cat <<\"$( "+rep("( ", 1100)+"a"+rep(" )", 1100)+" )\"\nx\n",
+		"cat <<E\n`"+rep("( ", 1100)+"a"+rep(" )", 1100)+"`\nE\n", "cat <<E\n$( "+rep("{ ", 600)+rep("( ", 600)+"a"+rep(" )", 600)+rep("; }", 600)+" )\nE\n",
 	)
 }
 
